@@ -392,4 +392,484 @@ Section FilterProofs.
       + rewrite server_writes_app, concat_app, <- app_assoc, S2, app_assoc, D2, <- app_assoc.
         destruct e; cbn; rewrite ?app_nil_r; reflexivity.
   Qed.
+
+  (* ---------------------------------------------------------------------------------- *)
+  (* the two pumps on their own                                                            *)
+
+  Notation out_pump := (out_pump dstate trigger detect trig_prompts zmodem_detect zstate zm_init zm_handle zm_busy zm_stop drag_detect msg_on msg_off is_stop_key o).
+  Notation in_pump := (in_pump dstate trigger detect trig_prompts zmodem_detect zstate zm_init zm_handle zm_busy zm_stop drag_detect msg_on msg_off is_stop_key o).
+
+  (* output pump: chunk-exact (one write per chunk, the chunk itself), nothing sent to the
+     server, the state stays idle *)
+  Theorem out_transparent : forall cs (s s' : state) ob,
+    calm s -> all_quiet s (map EvOut cs) = true -> out_pump s cs = (s', ob) ->
+    term_writes ob = cs /\ server_writes ob = [] /\ calm s' /\ held s' = held s /\ trace_on s' = trace_on s.
+  Proof.
+    unfold Filter.out_pump.
+    induction cs as [|c cs IH]; intros s s' ob Hc Hq Hr.
+    - cbn in Hr. inversion Hr; subst. cbn. auto.
+    - cbn [map Filter.run] in Hr. cbn [map Filter.all_quiet] in Hq.
+      apply andb_prop in Hq; destruct Hq as [Hq1 Hq2].
+      destruct (step s (EvOut c)) as [s1 o1] eqn:Hs1. cbn [fst] in Hq2.
+      destruct (run s1 (map EvOut cs)) as [s2 o2] eqn:Hr2.
+      inversion Hr; subst s' ob; clear Hr.
+      cbn [Filter.step] in Hs1.
+      destruct (out_step_calm s c s1 o1 Hc Hq1 Hs1) as (C1 & C2 & C3 & C4 & C5).
+      destruct (IH s1 s2 o2 C1 Hq2 Hr2) as (T & S & C & H & Tr).
+      rewrite term_writes_app, server_writes_app, C2, C3, T, S, H, C4, Tr, C5. cbn. auto.
+  Qed.
+
+  (* input pump when the platform's detector never asks for a hold-back (Linux, macOS):
+     chunk-exact *)
+  Theorem in_transparent_nohold : (forall b, d_win (drag_detect b) = false) ->
+    forall cs (s s' : state) ob,
+    calm s -> held s = None -> all_quiet s (map EvIn cs) = true -> in_pump s cs = (s', ob) ->
+    server_writes ob = cs /\ term_writes ob = [] /\ calm s' /\ held s' = None.
+  Proof.
+    intros Hnw. unfold Filter.in_pump.
+    induction cs as [|c cs IH]; intros s s' ob Hc Hh Hq Hr.
+    - cbn in Hr. inversion Hr; subst. cbn. auto.
+    - cbn [map Filter.run] in Hr. cbn [map Filter.all_quiet] in Hq.
+      apply andb_prop in Hq; destruct Hq as [Hq1 Hq2].
+      destruct (step s (EvIn c)) as [s1 o1] eqn:Hs1. cbn [fst] in Hq2.
+      destruct (run s1 (map EvIn cs)) as [s2 o2] eqn:Hr2.
+      inversion Hr; subst s' ob; clear Hr.
+      cbn [Filter.step] in Hs1.
+      destruct (in_step_calm s c s1 o1 Hc Hq1 Hs1) as (C1 & D1 & D2 & D3).
+      assert (Hh1 : held s1 = None).
+      { pose proof Hc as (Ht & Hz & Hp & _).
+        unfold Filter.in_step in Hs1. rewrite Hp, Ht, Hz in Hs1. cbv beta iota in Hs1.
+        replace (o_zmodem o && false) with false in Hs1 by (destruct (o_zmodem o); reflexivity).
+        assert (X : (if o_zmodem o then s else s) = s) by (destruct (o_zmodem o); reflexivity).
+        rewrite X in Hs1. rewrite ?Hz in Hs1. cbv beta iota in Hs1. rewrite ?andb_false_r in Hs1.
+        rewrite Hh in Hs1.
+        destruct (detect_on s); cbv beta iota in Hs1.
+        - unfold Filter.drag_verdict in Hs1. rewrite Hnw in Hs1. rewrite andb_false_r in Hs1.
+          destruct (d_files (drag_detect c)) as [[fs hd]|].
+          + inversion Hs1; subst. unfold add_drag.
+            destruct (drag_files s); destruct s; cbn in *; auto.
+          + inversion Hs1; subst. destruct (d_ignore (drag_detect c)); auto.
+            rewrite reset_drag_held; auto.
+        - inversion Hs1; subst; auto. }
+      destruct (IH s1 s2 o2 C1 Hh1 Hq2 Hr2) as (S & T & C & H).
+      rewrite term_writes_app, server_writes_app, D1, (D3 Hh Hh1), T, S. cbn. auto.
+  Qed.
+
+  (* ---------------------------------------------------------------------------------- *)
+  (* session life cycle: invariants that hold along EVERY run                              *)
+
+  Fixpoint owning (l : list hphase) : nat :=
+    match l with
+    | [] => O
+    | HOwning :: l' => S (owning l')
+    | HChoosing :: l' => owning l'
+    end.
+
+  (* the session pointer is set exactly while one handleTrzsz goroutine owns it; output is
+     dropped ("interrupting") only while an uploadDragFiles goroutine is between its ctrl-C
+     and its command *)
+  Definition inv (s : state) : Prop :=
+    owning (handlers s) = (if transfer s then 1 else 0)%nat /\
+    (interrupting s = true -> In DInterrupt (drag_procs s)).
+
+  Lemma owning_app : forall a b, owning (a ++ b) = (owning a + owning b)%nat.
+  Proof. induction a as [|x a IH]; intros; cbn; auto. destruct x; rewrite IH; auto. Qed.
+
+  Lemma owning_remove : forall l i ph, nth_error l i = Some ph ->
+    owning (remove_nth i l) = (owning l - (match ph with HOwning => 1 | HChoosing => 0 end))%nat.
+  Proof.
+    induction l as [|x l IH]; intros i ph H; destruct i; cbn in *; try discriminate.
+    - inversion H; subst. destruct ph; lia.
+    - rewrite (IH _ _ H). destruct x, ph; cbn; try lia.
+      assert (owning l >= 1)%nat; [|lia].
+      clear IH. revert i H. induction l as [|y l IHl]; intros i H; destruct i; cbn in *; try discriminate.
+      + inversion H; subst; lia.
+      + destruct y; [eapply IHl; eauto|lia].
+  Qed.
+
+  Lemma owning_set_owning : forall l i, nth_error l i = Some HChoosing ->
+    owning (set_nth i HOwning l) = S (owning l).
+  Proof.
+    induction l as [|x l IH]; intros i H; destruct i; cbn in *; try discriminate.
+    - inversion H; subst; reflexivity.
+    - rewrite (IH _ H). destruct x; reflexivity.
+  Qed.
+
+  Lemma in_set_nth : forall {A} (l : list A) i v x, nth_error l i = Some x -> In v (set_nth i v l).
+  Proof.
+    induction l as [|y l IH]; intros i v x H; destruct i; cbn in *; try discriminate; auto.
+    right; eapply IH; eauto.
+  Qed.
+
+  Lemma in_set_nth_other : forall {A} (l : list A) i v x y, In x l -> nth_error l i = Some y -> y <> x ->
+    In x (set_nth i v l).
+  Proof.
+    induction l as [|z l IH]; intros i v x y Hin H Hne; destruct i; cbn in *; try discriminate.
+    - inversion H; subst. destruct Hin; [contradiction|auto].
+    - destruct Hin; auto. right; eapply IH; eauto.
+  Qed.
+
+  Lemma in_remove_nth_other : forall {A} (l : list A) i x y, In x l -> nth_error l i = Some y -> y <> x ->
+    In x (remove_nth i l).
+  Proof.
+    induction l as [|z l IH]; intros i x y Hin H Hne; destruct i; cbn in *; try discriminate.
+    - inversion H; subst. destruct Hin; [contradiction|auto].
+    - destruct Hin; auto. right; eapply IH; eauto.
+  Qed.
+
+  Ltac break_match :=
+    match goal with
+    | |- context [match ?x with _ => _ end] => destruct x
+    | |- context [if ?x then _ else _] => destruct x
+    end.
+
+  (* what one Read of the output pump can change *)
+  Definition same_core (s s' : state) : Prop :=
+    transfer s' = transfer s /\ interrupting s' = interrupting s /\ drag_procs s' = drag_procs s /\
+    handlers s' = handlers s.
+
+  Lemma same_core_refl : forall s, same_core s s.
+  Proof. unfold same_core; auto. Qed.
+
+  Lemma same_core_trans : forall a b c, same_core a b -> same_core b c -> same_core a c.
+  Proof. unfold same_core; intros a b c (A1 & A2 & A3 & A4) (B1 & B2 & B3 & B4). repeat split; congruence. Qed.
+
+  Lemma trace_log_frame : forall (s : state) c, same_core s (snd (trace_log s c)).
+  Proof.
+    intros s c. unfold Filter.trace_log.
+    destruct (o_trace o); [|apply same_core_refl].
+    destruct (trace_on s); [destruct (contains trace_disable_marker c)|destruct (contains trace_enable_marker c)];
+      cbn [snd]; try apply same_core_refl; destruct s; unfold same_core; cbn; auto.
+  Qed.
+
+  Lemma out_zmodem_frame : forall (s : state) c,
+    match out_zmodem s c with inl s' => same_core s s' | inr (s', _) => same_core s s' end.
+  Proof.
+    intros s c. unfold Filter.out_zmodem.
+    destruct (o_zmodem o); [|apply same_core_refl].
+    destruct (zmodem s) as [z|]; [|apply same_core_refl].
+    destruct (zm_handle z c) as [h z']. destruct h; destruct s; unfold same_core; cbn; auto.
+  Qed.
+
+  Lemma out_forward_frame : forall (s : state) pre c, same_core s (fst (out_forward s pre c)).
+  Proof.
+    intros s pre c. unfold Filter.out_forward.
+    destruct (interrupting s); [apply same_core_refl|].
+    set (s1 := if skip_cmd s then set_skip_cmd false s else s).
+    assert (F : same_core s s1 /\ zmodem s1 = zmodem s).
+    { subst s1. destruct (skip_cmd s); [|split; auto using same_core_refl]. destruct s; unfold same_core; cbn; auto. }
+    destruct F as (F & Fz).
+    match goal with |- context [if ?b then (s1, ?x) else _] => destruct b end; [exact F|].
+    destruct (o_zmodem o && zmodem_detect c); [|exact F].
+    destruct (zmodem s1); [exact F|].
+    cbn [fst]. eapply same_core_trans; [exact F|]. destruct s1; unfold same_core; cbn; auto.
+  Qed.
+
+  Lemma out_detect_frame : forall (s : state) pre c,
+    let s' := fst (out_detect s pre c) in
+    transfer s' = transfer s /\ interrupting s' = interrupting s /\ drag_procs s' = drag_procs s /\
+    (handlers s' = handlers s \/ handlers s' = handlers s ++ [HChoosing]).
+  Proof.
+    intros s pre c. unfold Filter.out_detect.
+    destruct (if o_osc52 o then detect_osc52 (osc s) c else (osc s, [])) as [q cl].
+    destruct (detect (det (set_osc q s)) c) as [[b t] d'].
+    destruct t as [t|].
+    - cbn [fst]. destruct s; cbn; auto.
+    - pose proof (out_forward_frame (set_det d' (set_osc q s)) (pre ++ map Clip cl) b) as (F1 & F2 & F3 & F4).
+      cbv zeta. rewrite F1, F2, F3, F4. destruct s; cbn; auto.
+  Qed.
+
+  Lemma out_step_frame : forall (s : state) c,
+    let s' := fst (out_step s c) in
+    transfer s' = transfer s /\ interrupting s' = interrupting s /\ drag_procs s' = drag_procs s /\
+    (handlers s' = handlers s \/ handlers s' = handlers s ++ [HChoosing]).
+  Proof.
+    intros s c. unfold Filter.out_step.
+    destruct (transfer s) eqn:Ht; [cbn; auto|].
+    pose proof (trace_log_frame s c) as T.
+    destruct (trace_log s c) as [b s1]. cbn [snd] in T.
+    pose proof (out_zmodem_frame s1 b) as Z.
+    destruct (out_zmodem s1 b) as [s2|[s2 pre]].
+    - cbn. destruct (same_core_trans _ _ _ T Z) as (A1 & A2 & A3 & A4). rewrite A1, A2, A3, A4. auto.
+    - pose proof (out_detect_frame s2 pre b) as (D1 & D2 & D3 & D4).
+      destruct (same_core_trans _ _ _ T Z) as (A1 & A2 & A3 & A4).
+      cbv zeta. rewrite D1, D2, D3, A1, A2, A3. repeat split; auto. rewrite <- A4. exact D4.
+  Qed.
+
+  Lemma add_drag_frame : forall (s : state) fs hd,
+    transfer (add_drag fs hd s) = transfer s /\ interrupting (add_drag fs hd s) = interrupting s /\
+    handlers (add_drag fs hd s) = handlers s /\
+    (drag_procs (add_drag fs hd s) = drag_procs s \/ drag_procs (add_drag fs hd s) = drag_procs s ++ [DWait]).
+  Proof. intros s fs hd. unfold add_drag. destruct (drag_files s); destruct s; cbn; auto. Qed.
+
+  Lemma drag_verdict_frame : forall timer (s : state) b,
+    let s' := fst (drag_verdict timer s b) in
+    transfer s' = transfer s /\ interrupting s' = interrupting s /\ handlers s' = handlers s /\
+    (drag_procs s' = drag_procs s \/ drag_procs s' = drag_procs s ++ [DWait]).
+  Proof.
+    intros timer s b. unfold Filter.drag_verdict.
+    destruct (d_files (drag_detect b)) as [[fs hd]|]; cbn [fst].
+    - apply add_drag_frame.
+    - destruct (negb timer && d_win (drag_detect b)); cbn [fst].
+      + destruct s; cbn; auto.
+      + destruct (d_ignore (drag_detect b)); auto. unfold reset_drag. destruct (dragging s); destruct s; cbn; auto.
+  Qed.
+
+  Lemma in_step_frame : forall (s : state) c,
+    let s' := fst (in_step s c) in
+    transfer s' = transfer s /\ interrupting s' = interrupting s /\ handlers s' = handlers s /\
+    (drag_procs s' = drag_procs s \/ drag_procs s' = drag_procs s ++ [DWait]).
+  Proof.
+    intros s c. unfold Filter.in_step.
+    destruct (prompt s); [cbn; auto|].
+    destruct (transfer s) eqn:Ht.
+    { cbn [fst]. destruct (is_stop_key c && prompts s); [destruct s; cbn in *; auto|auto]. }
+    match goal with |- context [if o_zmodem o && ?b then _ else _] => destruct (o_zmodem o && b) end.
+    { cbn [fst]. destruct (o_zmodem o); [|auto]. destruct (zmodem s); [|auto].
+      destruct (list_eqb c [drag_interrupt_byte]); [destruct s; cbn in *; auto|auto]. }
+    set (s1 := if o_zmodem o then _ else s).
+    assert (F : transfer s1 = transfer s /\ interrupting s1 = interrupting s /\ handlers s1 = handlers s /\ drag_procs s1 = drag_procs s).
+    { subst s1. destruct (o_zmodem o); [|auto]. destruct (zmodem s); [|auto].
+      destruct (list_eqb c [drag_interrupt_byte]); [destruct s; cbn in *; auto|auto]. }
+    destruct F as (F1 & F2 & F3 & F4). rewrite Ht in F1.
+    destruct (detect_on s1).
+    - destruct (held s1).
+      + cbn [fst].
+        assert (G : forall v, transfer (set_held v s1) = transfer s1 /\ interrupting (set_held v s1) = interrupting s1 /\
+                    handlers (set_held v s1) = handlers s1 /\ drag_procs (set_held v s1) = drag_procs s1)
+          by (intros v; destruct s1; cbn; auto).
+        destruct (G (Some (l ++ c))) as (G1 & G2 & G3 & G4).
+        repeat split; try congruence; try (left; congruence).
+      + pose proof (drag_verdict_frame false s1 c) as (G1 & G2 & G3 & G4).
+        repeat split; try congruence; try (destruct G4; [left|right]; congruence).
+    - cbn [fst]. repeat split; try congruence; try (left; congruence).
+  Qed.
+
+  Lemma hold_timer_frame : forall (s : state),
+    let s' := fst (hold_timer s) in
+    transfer s' = transfer s /\ interrupting s' = interrupting s /\ handlers s' = handlers s /\
+    (drag_procs s' = drag_procs s \/ drag_procs s' = drag_procs s ++ [DWait]).
+  Proof.
+    intros s. unfold Filter.hold_timer. destruct (held s) as [b|]; [|cbn; auto].
+    pose proof (drag_verdict_frame true (set_held None s) b) as (G1 & G2 & G3 & G4).
+    assert (X : transfer (set_held None s) = transfer s /\ interrupting (set_held None s) = interrupting s /\
+                handlers (set_held None s) = handlers s /\ drag_procs (set_held None s) = drag_procs s)
+      by (destruct s; cbn; auto).
+    destruct X as (X1 & X2 & X3 & X4). rewrite <- X1, <- X2, <- X3, <- X4. auto.
+  Qed.
+
+  Lemma inv_frame : forall (s s' : state), inv s ->
+    transfer s' = transfer s -> interrupting s' = interrupting s ->
+    (handlers s' = handlers s \/ handlers s' = handlers s ++ [HChoosing]) ->
+    (drag_procs s' = drag_procs s \/ drag_procs s' = drag_procs s ++ [DWait]) ->
+    inv s'.
+  Proof.
+    intros s s' (I1 & I2) Ht Hi Hh Hd. split.
+    - rewrite Ht. destruct Hh as [Hh|Hh]; rewrite Hh; auto. rewrite owning_app. cbn. lia.
+    - rewrite Hi. intros X. apply I2 in X. destruct Hd as [Hd|Hd]; rewrite Hd; auto. apply in_or_app; auto.
+  Qed.
+
+  Lemma reset_drag_frame : forall (s : state),
+    transfer (reset_drag s) = transfer s /\ interrupting (reset_drag s) = interrupting s /\
+    handlers (reset_drag s) = handlers s /\ drag_procs (reset_drag s) = drag_procs s.
+  Proof. intros s. unfold reset_drag. destruct (dragging s); destruct s; cbn; auto. Qed.
+
+  Lemma drag_step_inv : forall (s : state) i, inv s -> inv (fst (drag_step s i)).
+  Proof.
+    intros s i (I1 & I2). unfold Filter.drag_step.
+    destruct (nth_error (drag_procs s) i) as [ph|] eqn:Hn; [|split; auto].
+    destruct ph.
+    - destruct (dragging s); cbn [fst].
+      + split; [destruct s; cbn in *; auto|]. intros _.
+        assert (X : drag_procs (set_drag_procs (set_nth i DInterrupt (drag_procs s)) (set_interrupting true s))
+                    = set_nth i DInterrupt (drag_procs s)) by (destruct s; reflexivity).
+        rewrite X. eapply in_set_nth; eauto.
+      + split; [destruct s; cbn in *; auto|]. intros X.
+        assert (Y : interrupting s = true) by (destruct s; cbn in *; auto).
+        apply I2 in Y.
+        assert (Z : drag_procs (set_drag_procs (remove_nth i (drag_procs s)) s) = remove_nth i (drag_procs s))
+          by (destruct s; reflexivity).
+        rewrite Z. eapply in_remove_nth_other; eauto. discriminate.
+    - cbn [fst]. split; [destruct s; cbn in *; auto|]. intros X. destruct s; cbn in X; discriminate.
+    - cbn [fst]. pose proof (reset_drag_frame s) as (R1 & R2 & R3 & R4). split.
+      + assert (X : transfer (set_drag_procs (remove_nth i (drag_procs s)) (reset_drag s)) = transfer (reset_drag s) /\
+                    handlers (set_drag_procs (remove_nth i (drag_procs s)) (reset_drag s)) = handlers (reset_drag s))
+          by (destruct (reset_drag s); cbn; auto).
+        destruct X as (X1 & X2). rewrite X1, X2, R1, R3. auto.
+      + intros X.
+        assert (Y : interrupting s = true).
+        { rewrite <- R2. destruct (reset_drag s); cbn in *; auto. }
+        apply I2 in Y.
+        assert (Z : drag_procs (set_drag_procs (remove_nth i (drag_procs s)) (reset_drag s)) = remove_nth i (drag_procs s))
+          by (destruct (reset_drag s); reflexivity).
+        rewrite Z. eapply in_remove_nth_other; eauto. discriminate.
+  Qed.
+
+  Lemma handler_exit_inv : forall (s : state) i ph, inv s -> nth_error (handlers s) i = Some ph ->
+    inv (handler_exit dstate zstate s i ph).
+  Proof.
+    intros s i ph (I1 & I2) Hn. unfold handler_exit.
+    pose proof (owning_remove _ _ _ Hn) as Ho.
+    destruct ph.
+    - split; [|destruct s; cbn in *; auto].
+      assert (X : handlers (set_handlers (remove_nth i (handlers s)) s) = remove_nth i (handlers s) /\
+                  transfer (set_handlers (remove_nth i (handlers s)) s) = transfer s) by (destruct s; cbn; auto).
+      destruct X as (X1 & X2). rewrite X1, X2, Ho, I1. lia.
+    - split; [|destruct s; cbn in *; auto].
+      assert (X : handlers (set_transfer false (set_handlers (remove_nth i (handlers s)) s)) = remove_nth i (handlers s) /\
+                  transfer (set_transfer false (set_handlers (remove_nth i (handlers s)) s)) = false) by (destruct s; cbn; auto).
+      destruct X as (X1 & X2). rewrite X1, X2, Ho, I1. destruct (transfer s); lia.
+  Qed.
+
+  Lemma handler_step_inv : forall (s : state) i a, inv s -> inv (fst (handler_step s i a)).
+  Proof.
+    intros s i a Hi. unfold Filter.handler_step.
+    destruct (nth_error (handlers s) i) as [ph|] eqn:Hn; [|auto].
+    destruct a, ph; cbn [fst]; auto using handler_exit_inv.
+    - (* HTakeDrag *) pose proof (reset_drag_frame s) as (R1 & R2 & R3 & R4).
+      eapply inv_frame; eauto; rewrite ?R3, ?R4; auto.
+    - (* HAccept *) destruct (transfer s) eqn:Ht; cbn [fst]; auto using handler_exit_inv.
+      destruct Hi as (I1 & I2). split; [|destruct s; cbn in *; auto].
+      assert (X : handlers (set_handlers (set_nth i HOwning (handlers s)) (set_transfer true s)) = set_nth i HOwning (handlers s) /\
+                  transfer (set_handlers (set_nth i HOwning (handlers s)) (set_transfer true s)) = true) by (destruct s; cbn; auto).
+      destruct X as (X1 & X2). rewrite X1, X2, (owning_set_owning _ _ Hn), I1, Ht. reflexivity.
+  Qed.
+
+  Lemma step_inv : forall (s : state) e, inv s -> inv (fst (step s e)).
+  Proof.
+    intros s e Hi. destruct e as [c|c| | |i|i a| |z]; cbn [Filter.step].
+    - pose proof (out_step_frame s c) as (F1 & F2 & F3 & F4). eapply inv_frame; eauto.
+    - pose proof (in_step_frame s c) as (F1 & F2 & F3 & F4). eapply inv_frame; eauto.
+    - cbn [fst]. destruct (o_drag o); auto. all: try (eapply inv_frame; eauto; try (destruct s; cbn; auto)).
+    - pose proof (hold_timer_frame s) as (F1 & F2 & F3 & F4). eapply inv_frame; eauto.
+    - apply drag_step_inv; auto.
+    - apply handler_step_inv; auto.
+    - cbn [fst]. eapply inv_frame; eauto; try (destruct s; cbn; auto).
+    - cbn [fst]. destruct (zmodem s); auto. all: try (eapply inv_frame; eauto; try (destruct s; cbn; auto)).
+  Qed.
+
+  Theorem run_inv : forall es (s : state), inv s -> inv (fst (run s es)).
+  Proof.
+    induction es as [|e es IH]; intros s Hi; cbn [Filter.run]; auto.
+    pose proof (step_inv s e Hi) as H1. destruct (step s e) as [s1 o1]. cbn [fst] in H1.
+    pose proof (IH s1 H1) as H2. destruct (run s1 es) as [s2 o2]. exact H2.
+  Qed.
+
+  Lemma init_inv : forall d, inv (init dstate zstate d).
+  Proof. intros d. split; cbn; auto. discriminate. Qed.
+
+  Lemma idle_inv : forall s : state, idle s = true -> inv s.
+  Proof.
+    intros s H. apply idle_calm in H. destruct H as ((H1 & H2 & H3 & H4 & H5 & H6 & H7 & H8) & _).
+    split; [rewrite H7, H1; reflexivity|rewrite H4; discriminate].
+  Qed.
+
+  (* every way a session can end leaves the wrapper idle: once the helper goroutines of a
+     history have finished, nothing owns the streams any more *)
+  Theorem quiescent_idle : forall s : state, inv s ->
+    handlers s = [] -> drag_procs s = [] -> held s = None -> prompt s = false -> zmodem s = None ->
+    skip_cmd s = false -> idle s = true.
+  Proof.
+    intros s (I1 & I2) Hh Hd Hb Hp Hz Hk.
+    apply calm_idle; auto. unfold calm. rewrite Hh in I1. cbn in I1.
+    repeat split; auto.
+    - destruct (transfer s); auto; discriminate.
+    - destruct (interrupting s); auto. rewrite Hd in I2. destruct (I2 eq_refl).
+  Qed.
+
+  (* each exit of handleTrzsz, one by one *)
+  Theorem every_exit_clears : forall (s : state) i a, inv s ->
+    nth_error (handlers s) i = Some HOwning ->
+    (a = HDone \/ a = HError \/ a = HStop \/ a = HBackground) ->
+    transfer (fst (handler_step s i a)) = false /\
+    handlers (fst (handler_step s i a)) = remove_nth i (handlers s).
+  Proof.
+    intros s i a Hi Hn Ha. unfold Filter.handler_step. rewrite Hn.
+    destruct Ha as [Ha|[Ha|[Ha|Ha]]]; subst a; cbn [fst]; unfold handler_exit; destruct s; cbn; auto.
+  Qed.
+
+  Theorem early_exit_keeps : forall (s : state) i a,
+    nth_error (handlers s) i = Some HChoosing -> (a = HRefuse \/ a = HFailEarly) ->
+    transfer (fst (handler_step s i a)) = transfer s /\
+    handlers (fst (handler_step s i a)) = remove_nth i (handlers s).
+  Proof.
+    intros s i a Hn Ha. unfold Filter.handler_step. rewrite Hn.
+    destruct Ha as [Ha|Ha]; subst a; cbn [fst]; unfold handler_exit; destruct s; cbn; auto.
+  Qed.
+
+  (* induction over histories of sessions: whatever happened before (any number of sessions,
+     ended in any way, any interleaving), once the wrapper is quiescent the two transparency
+     theorems apply again *)
+  Theorem after_session : forall es1 es2 (s0 s1 s2 : state) ob1 ob2,
+    idle s0 = true -> run s0 es1 = (s1, ob1) ->
+    handlers s1 = [] -> drag_procs s1 = [] -> held s1 = None -> prompt s1 = false -> zmodem s1 = None ->
+    skip_cmd s1 = false ->
+    all_quiet s1 es2 = true -> run s1 es2 = (s2, ob2) ->
+    idle s1 = true /\
+    term_writes ob2 = out_chunks _ es2 /\
+    concat (server_writes ob2) ++ held_bytes s2 = concat (in_chunks _ es2) /\
+    calm s2.
+  Proof.
+    intros es1 es2 s0 s1 s2 ob1 ob2 H0 Hr1 Hh Hd Hb Hp Hz Hk Hq Hr2.
+    assert (Hi : inv s1).
+    { pose proof (run_inv es1 s0 (idle_inv s0 H0)) as X. rewrite Hr1 in X. exact X. }
+    assert (Hidle : idle s1 = true) by (apply quiescent_idle; auto).
+    destruct (idle_calm s1 Hidle) as (Hc & _).
+    destruct (run_calm es2 s1 s2 ob2 Hc Hq Hr2) as (C & T & S).
+    split; [exact Hidle|split; [exact T|split; [|exact C]]].
+    unfold Filter.held_bytes in S at 2. rewrite Hb in S. exact S.
+  Qed.
+
+  (* the upload-command echo flag: if it is still pending when everything else is idle, the
+     next chunk clears it; the chunk is forwarded unless it IS the echo of the command *)
+  Theorem skip_pending : forall (s : state) c s' ob,
+    calm (set_skip_cmd false s) -> skip_cmd s = true -> quiet s (EvOut c) = true ->
+    out_step s c = (s', ob) ->
+    skip_cmd s' = false /\
+    (term_writes ob = [c] \/
+     (term_writes ob = [skip_echo_repl] /\
+      cur_cmd s = Some (trim_right skip_trim_cutset (trim_vt100 c)))).
+  Proof.
+    intros s c s' ob Hc Hk Hq Hs.
+    destruct Hc as (Ht & Hz & Hp & Hi & _ & Hd & Hh & Hheld).
+    assert (Ht' : transfer s = false) by (destruct s; cbn in *; auto).
+    assert (Hz' : zmodem s = None) by (destruct s; cbn in *; auto).
+    assert (Hi' : interrupting s = false) by (destruct s; cbn in *; auto).
+    cbn [Filter.quiet] in Hq.
+    apply andb_prop in Hq; destruct Hq as [Hq Hq3].
+    apply andb_prop in Hq; destruct Hq as [Hq1 Hq2].
+    apply negb_true_iff in Hq1. apply negb_true_iff in Hq3.
+    unfold Filter.out_step in Hs. rewrite Ht' in Hs.
+    assert (Htl : trace_log s c = (c, s)).
+    { unfold Filter.trace_log. unfold Filter.trace_fires in Hq1.
+      destruct (o_trace o); cbn in Hq1; auto.
+      destruct (trace_on s); rewrite Hq1; reflexivity. }
+    rewrite Htl in Hs.
+    assert (Hzm : out_zmodem s c = inr (s, [])).
+    { unfold Filter.out_zmodem. rewrite Hz'. destruct (o_zmodem o); reflexivity. }
+    rewrite Hzm in Hs.
+    unfold Filter.out_detect in Hs.
+    destruct (if o_osc52 o then detect_osc52 (osc s) c else (osc s, [])) as [q cl] eqn:Hosc.
+    assert (Hdet : det (set_osc q s) = det s) by (destruct s; reflexivity).
+    rewrite Hdet in Hs.
+    destruct (detect (det s) c) as [[b t] d'] eqn:Hd5. cbn in Hq2.
+    destruct t as [t|]; [discriminate|].
+    apply detect_silent in Hd5. subst b.
+    unfold Filter.out_forward in Hs.
+    assert (Hi2 : interrupting (set_det d' (set_osc q s)) = false) by (destruct s; cbn in *; auto).
+    assert (Hk2 : skip_cmd (set_det d' (set_osc q s)) = true) by (destruct s; cbn in *; auto).
+    assert (Hcc : cur_cmd (set_skip_cmd false (set_det d' (set_osc q s))) = cur_cmd s) by (destruct s; reflexivity).
+    rewrite Hi2, Hk2, Hcc in Hs. cbn [andb] in Hs.
+    destruct (cur_cmd s) as [cc|] eqn:Hcur.
+    - destruct (list_eqb cc (trim_right skip_trim_cutset (trim_vt100 c))) eqn:He.
+      + inversion Hs; subst; clear Hs. split; [destruct s; reflexivity|]. right. split.
+        * cbn [app]. rewrite term_writes_app, term_writes_clips. reflexivity.
+        * f_equal. clear - He. revert He. generalize (trim_right skip_trim_cutset (trim_vt100 c)).
+          induction cc as [|x cc IH]; intros l He; destruct l; cbn in He; try discriminate; auto.
+          apply andb_prop in He. destruct He as [E1 E2]. apply N.eqb_eq in E1. subst. f_equal. auto.
+      + rewrite Hq3 in Hs. inversion Hs; subst; clear Hs. split; [destruct s; reflexivity|]. left.
+        cbn [app]. rewrite term_writes_app, term_writes_clips. reflexivity.
+    - rewrite Hq3 in Hs. inversion Hs; subst; clear Hs. split; [destruct s; reflexivity|]. left.
+      cbn [app]. rewrite term_writes_app, term_writes_clips. reflexivity.
+  Qed.
 End FilterProofs.
